@@ -176,11 +176,13 @@ package analysis
 //@        oneVar.IsUse || oneVar.IsClose || oneVar.ReferFunc != nil || hits("IsInSysNotUseMap#0") > prev(hits("IsInSysNotUseMap#0")) || hits("IsInSysNotUseMap#1") > prev(hits("IsInSysNotUseMap#1"))
 //@ end
 // the exemption "alias of a library name" (local concat = table.concat) goes by BINDING: the leading name of the
-// initialiser is resolved, in the scope being closed and at the position of the declaration, before the library table
+// initialiser is resolved, in the scope being closed and at the position of the INITIALISER (at the declared name
+// `local math = math` would find itself - the first version of the repair did, second fix), before the library table
 // is asked (fix: `local math = {}; local x = math.foo` was exempt by spelling)
 //@ func (*Analysis).checkLocVarCall
 //@   props C07
-//@   at call FindLocVar#0 before assert[leading-name-is-resolved-where-the-local-is-declared] arg0 == a.curScope && arg2 == oneVar.Loc
+//@   at call GetExpLoc#0 before assert[position-of-the-initialiser-is-asked] arg0 == oneVar.ReferExp
+//@   at call FindLocVar#0 before assert[leading-name-is-resolved-at-the-initialiser-not-at-the-declared-name] arg0 == a.curScope && arg2 == lastresult("GetExpLoc#0")
 //@ end
 // C17: the pass emits two diagnostic types, 4 and 17, each with a switch of its own: it is skipped as a whole only when
 // BOTH are off (fix 6298dda; the per-type filtering is done where each report is recorded)
